@@ -48,10 +48,7 @@ instance : Monad Outcome where
   pure := ok
   bind := bind
 /-- neither a panic nor a missing-seal-room outcome -/
-def safe {α : Type} : Outcome α → Prop
-  | panic => False
-  | noRoom => False
-  | _ => True
+def safe {α : Type} (o : Outcome α) : Prop := o ≠ panic ∧ o ≠ noRoom
 end Outcome
 
 /-! ## bytes -/
